@@ -12,6 +12,8 @@
 (* e.op = "deliver": one real Optimizer.update_model([prior.sample(j1/UD)]) on a parameter in e.mode   *)
 (*   with that prior attached; lin = round(received*S), log = round(log10(received)*S) (has* = the      *)
 (*   reading exists); the reading named by Deliver(prior, mode, .) must be the specification's sample.  *)
+(*   The parameter is owned by e.owner (model / observation); e.given = FALSE: nothing was attached, a, b *)
+(*   are the parameter's bounds and the prior is the default of its mode (InForce).                      *)
 (* Stateless stream: the step always advances, rejected events are printed as <<"BAD",..>>. *)
 EXTENDS Priors, IOUtils, TLCExt
 VARIABLE l
@@ -71,16 +73,23 @@ WhyTail(e) ==
         ELSE IF e.k1 = e.k2 /\ e.b1 = 2 /\ e.b2 = 2 /\ e.s1 # e.s2 /\ ~Close(e.m1 + e.m2, e.S, RMul(Q(2), p.a), 2 * e.tol) THEN "tail_symmetric"
         ELSE "ok"
 \* ---- delivery through update_model
+\* e.owner owns the parameter (e.company: what else is fitted, on the other owner); e.given: the user attached the prior
+\* kind(a, b); otherwise a, b are the parameter's bounds (exponents of ten for a log-mode parameter) and nothing was
+\* attached.  The prior in force is InForce(owner, ..) of Priors.tla, for either owner.
 WhyDeliver(e) ==
-    LET p    == [kind |-> e.kind, a |-> Rq(e.a), b |-> Rq(e.b)]
+    LET up   == IF e.given THEN [kind |-> e.kind, a |-> Rq(e.a), b |-> Rq(e.b)] ELSE NoPrior
+        bd   == IF e.mode = "log" THEN <<e.a[1], e.b[1]>> ELSE <<Rq(e.a), Rq(e.b)>>      \* read only when nothing was attached
+        p    == InForce(e.owner, up, e.mode, bd)
         u1   == R(e.j1, e.UD)
         want == Deliver(p, e.mode, Q(0)).sp
         has  == IF want = "pow10" THEN e.hasg ELSE e.hasl
         m    == IF want = "pow10" THEN e.log ELSE e.lin
-    IN  IF ~has THEN "delivered_to_model"
+        bad  == IF e.owner = "model" THEN "delivered_to_model" ELSE "delivered_to_observation"
+    IN  IF e.owner \notin Owners \/ (~e.given /\ e.mode = "log" /\ ~(e.a[2] = 1 /\ e.b[2] = 1)) THEN "unknown_op"
+        ELSE IF ~has THEN bad
         ELSE IF p.kind \in UniKinds
-             THEN IF Close(m, e.S, RAdd(p.a, RMul(u1, RSub(p.b, p.a))), e.tol) THEN "ok" ELSE "delivered_to_model"
-        ELSE IF InBracket(m, e.S, p, e.j1, e.UD, e.gtol) THEN "ok" ELSE "delivered_to_model"
+             THEN IF Close(m, e.S, RAdd(p.a, RMul(u1, RSub(p.b, p.a))), e.tol) THEN "ok" ELSE bad
+        ELSE IF InBracket(m, e.S, p, e.j1, e.UD, e.gtol) THEN "ok" ELSE bad
 
 Why(e) == CASE e.op = "pair" -> WhyPair(e)
             [] e.op = "tail" -> WhyTail(e)
